@@ -47,7 +47,8 @@ RULE = ("gen(seed): program tree of add_callback/spawn_callback/add_timeout(abs,
         "call_later/call_at/remove_timeout/add_future/resolve ops (top level issued by the main "
         "coroutine between sleeps, nested ones from inside callbacks, bodies raise / return "
         "failing futures / coroutines), then 0-3 run_sync calls (value, exception, future, "
-        "timeout); constant clock skew, late/cost tapes, deadlines drawn from a small set so "
+        "timeout); constant clock skew, late/cost tapes, slow callbacks that advance the clock while "
+        "they run (timeouts become due while still in the heap), deadlines drawn from a small set so "
         "that ties, overdue deadlines and crossing deadlines are common. "
         "non-trivial = >=3 callbacks actually ran AND >=2 distinct mechanisms among {callback, "
         "timeout fired, removal before firing, logged exception, add_future callback, run_sync, "
@@ -120,6 +121,10 @@ class _Ctx:
 
 def _gen_body(rng, ctx, depth, w, budget):
     body = {}
+    if rng.random() < w["busy"]:
+        # a slow callback: the loop clock moves while it runs (before it schedules anything), so
+        # timeouts become due while they are still in the timer heap
+        body["busy"] = rng.choice([1, 1, 2, 3, 5, 8, 17, 40])
     if depth < 3 and budget[0] > 0 and rng.random() < w["nest"]:
         body["do"] = _gen_ops(rng, ctx, depth + 1, w, budget, rng.randint(1, 3))
     end = rng.choice(ENDS) if rng.random() < w["bad"] else "ok"
@@ -170,7 +175,22 @@ def _gen_ops(rng, ctx, depth, w, budget, n):
             op["body"] = _gen_body(rng, ctx, depth, w, budget)
             ops.append(op)
         elif k < w["cb"] + w["to"]:
-            if rng.random() < w["pair"]:
+            if rng.random() < w["overtake"]:
+                # timeout A is pending; a slow callback lets the clock pass A's deadline and then
+                # schedules timeout B whose deadline has passed too (A is due, not yet dispatched)
+                d = rng.choice([0, 1, 2, 5])
+                a = _gen_timeout(rng, ctx, depth, w, budget, d)
+                b = _gen_timeout(rng, ctx, depth + 1, w, budget,
+                                 rng.choice([0, 0, -1, -2, -(d + 1)]))
+                if b["form"] == "td":
+                    b["d"] = rng.choice([0, -16])
+                c = {"op": "cb", "id": ctx.new_id(), "via": "add",
+                     "body": {"busy": d + rng.choice([1, 1, 2, 5]), "do": [b]}}
+                ops.append(a)
+                if rng.random() < 0.3:
+                    ops.append(_gen_timeout(rng, ctx, depth, w, budget, d + 1))
+                ops.append(c)
+            elif rng.random() < w["pair"]:
                 # two timeouts due in the same iteration; the first removes the second
                 # (or the second removes the already-fired first)
                 d = rng.choice([0, 1, 2, 5, 16])
@@ -229,6 +249,8 @@ def gen(rng, tier, index):
         "bad": rng.choice([0.1, 0.3, 0.6]),
         "overdue": rng.choice([0.0, 0.1, 0.35]),
         "pair": rng.choice([0.05, 0.2]),
+        "busy": rng.choice([0.0, 0.1, 0.3]),
+        "overtake": rng.choice([0.0, 0.05, 0.15]),
     }
     tot = w["cb"] + w["to"] + w["rm"] + w["fut"] + 0.08
     for k in ("cb", "to", "rm", "fut"):
@@ -298,6 +320,8 @@ def _walk(ops, out):
             if not isinstance(body, dict):
                 raise ValueError
             _walk(body.get("do", []), out)
+            if not isinstance(body.get("busy", 0), int) or not 0 <= body.get("busy", 0) <= 4096:
+                raise ValueError
             if k == "to" and not isinstance(op.get("d", 0), int):
                 raise ValueError
         elif k in ("rm", "res"):
@@ -565,6 +589,9 @@ def _run_single(scn, full_log=False):
                     arg_ok = len(args) == 1 and args[0] is fut
                 first = rec.note_run(ident, arg_ok)
                 outside = asyncio._get_running_loop() is not loop
+                if body.get("busy"):
+                    loop._now += body["busy"] * UNIT
+                    probe("callback_ran_long")
                 if outside:
                     # Every IOLoop callback runs from the running loop.  A callback invoked
                     # synchronously by the scheduling call while the loop is stopped would make
@@ -629,6 +656,13 @@ def _run_single(scn, full_log=False):
                                       "rm_where": None}
                     if deadline < now:
                         probe("overdue_deadline")
+                    if deadline <= now:
+                        for oid, o in rec.tos.items():
+                            if (oid != ident and o["eff"] < now and not o["removed_before"]
+                                    and not rec.runs.get(oid)):
+                                # an earlier timeout is due but still waiting in the timer heap
+                                probe("overdue_scheduled_while_earlier_timeout_due")
+                                break
                     env.log.ev("to", ident, form, deadline)
                 elif k == "rm":
                     t = rec.tos.get(op["t"])
